@@ -665,7 +665,7 @@ func (r *Reconciler) reconcileApply(ctx context.Context, proposal *configapi.Pro
 		log.Debugf("Sending SetRequest %+v", setRequest)
 		setResponse, err := conn.Set(ctx, setRequest)
 		if err != nil {
-			code := status.Code(err)
+			code := errorCode(err)
 			switch code {
 			case codes.Unavailable, codes.Canceled, codes.DeadlineExceeded:
 				log.Errorf("Failed sending SetRequest %+v", setRequest, err)
@@ -801,4 +801,13 @@ func isModelDataCompatible(pluginDataModels []*gpb.ModelData, targetDataModels [
 		}
 	}
 	return true
+}
+
+// errorCode returns the gRPC status code of an error returned by the southbound client. The client
+// converts gRPC status errors to typed errors, for which status.Code always reports Unknown.
+func errorCode(err error) codes.Code {
+	if _, ok := err.(*errors.TypedError); ok {
+		return errors.Status(err).Code()
+	}
+	return status.Code(err)
 }
